@@ -45,6 +45,13 @@ def make_problem(r, n, m, script=None):
         return out
     crit = [r.choice(["minimize", "maximize"]) for _ in range(m)]
     p = hooks.make_problem(n=n, m=m, params=prm, fn=fn, criteria=crit, script=script)
+    if r.random() < 0.3:
+        # goal names are the user's: also the names the evaluators use for what they add ('sensitivity', 'gradient'), names that
+        # repeat, and names that are prefixes of each other
+        pool_ = ["sensitivity", "gradient", "sensitivity ", "f", "f_1", "x0", "cost", "Sensitivity"]
+        for c_ in p.costs:
+            c_["name"] = r.choice(pool_)
+        p.costs[-1]["name"] = r.choice(["sensitivity", "gradient", "sensitivity", "cost"])
     return p, bxs, tols, fn
 
 
